@@ -10,7 +10,7 @@ from ..env import NULL
 from . import C01, C02, C08, C09
 
 PLAIN = "SPECIFICATION TraceSpec\nCHECK_DEADLOCK FALSE\n"
-METHODS = facade.AGG + facade.CUM + ["rolling_" + r for r in facade.ROLL] + ["iter"]
+METHODS = facade.AGG + facade.CUM + ["rolling_" + r for r in facade.ROLL] + ["iter"] + facade.DELEG
 
 
 def build(rng, tier):
@@ -48,7 +48,7 @@ def run(tier):
         "given by column name / several names / array / index level / name+array mixture x index kind (default, shuffled "
         "ints, duplicated labels, strings, 2-level) x 1-2 value columns with zeros/negatives/nulls x with and without [] "
         "selection (one column, a list, a list that names the key column again) x string / float / categorical (with an unused category) keys x every facade method (10 aggregations, cumsum/cummax/cummin/cumcount, rolling sum/mean/min/max with window 1..3 and min_periods None / 0..window, "
-        "iteration).  The facade's result, the core engine's result on the selected value columns and (where the property "
+        "iteration; and the delegation of median / quantile / nth / head / tail / agg / apply / ema / masked aggregations / ngroups, each compared with the core engine's result on the selected columns).  The facade's result, the core engine's result on the selected value columns and (where the property "
         "names it) pandas' result are all projected to the same trace formats and validated against the same specifications."))
     ck.mc_bg("GBCore", C01.MC.format(labels="{1, 2}", nkeys=2, vals="{1}", rows=3, kernels='{"sum", "first", "size"}', obv="FALSE"), "core_two_keys", workers=4)
     sched.install()
@@ -62,7 +62,7 @@ def run(tier):
         by_kind.setdefault(t["kind"], []).append(t)
     ck.notes["traces_by_impl"] = {impl: sum(1 for t in allt if t.get("impl") == impl) for impl in ("facade", "core", "pandas")}
     specs = {"cols": ("Trace_GBFacade", PLAIN), "core": ("Trace_GBCore", C01.trace_cfg()), "cum": ("Trace_GBCumulative", C08.TRACE_CFG.format(diag="FALSE")),
-             "roll": ("Trace_GBRolling", C09.trace_cfg()), "iter": ("Trace_GBFactorize", C02.TRACE_CFG)}
+             "roll": ("Trace_GBRolling", C09.trace_cfg()), "iter": ("Trace_GBFactorize", C02.TRACE_CFG), "deleg": ("Trace_GBFacade", PLAIN)}
     for kind, trs in by_kind.items():
         mod, cfg = specs[kind]
         rej = ck.validate(mod, trs, cfg, kind, nontrivial=lambda t: True, key=lambda t: json.dumps([t.get("impl"), t.get("cfg"), t.get("k1"), t.get("k2"), t.get("vcols"), t.get("op"), t.get("column")], default=str))
